@@ -1,5 +1,9 @@
 use memmap2::MmapMut;
+#[cfg(not(feature = "verif"))]
 use parking_lot::RwLockReadGuard;
+
+#[cfg(feature = "verif")]
+use crate::verif::RwLockReadGuard;
 
 use crate::{Database, Region};
 
